@@ -206,6 +206,8 @@ static struct reb_treecell *reb_simulation_update_tree_cell(struct reb_simulatio
             r->particles[oldpos].c->pt = oldpos;
             if (!isnan(reinsertme.y)){ // Do not reinsert if flagged for removal
                 reb_simulation_add(r, reinsertme);
+            }else if (r->N_active>(int)r->N){
+                r->N_active = r->N; // N_active may not exceed N (see reb_simulation_remove_particle)
             }
         }
 		free(node);
